@@ -77,12 +77,12 @@ GET_ENS = [
     FRAME, KEPT,
     ('get_keeps_full_reference', 'out matches Ok(rc) ==> rc.inner == %s' % KEY),
     # the recursion guard comes before the cache: a refused key is refused whatever the caches hold, and they are not touched
-    ('refusal_ignores_the_caches', 'old(self).chain@.contains(%s) ==> (out matches Err(PdfError::Other)) && final(self).storage == old(self).storage' % KEY),
+    ('refusal_ignores_the_caches', 'guard_refuses(old(self).chain@, %s) ==> (out matches Err(PdfError::Other)) && final(self).storage == old(self).storage' % KEY),
     ('answers_as_uncached_load',
-     '!old(self).chain@.contains(%s) ==> same_answer(erased_rc(out), load_erased(%s, %s, tag::<T>(), answer_chain(old(self).storage, %s, tag::<T>(), %s)))'
+     '!guard_refuses(old(self).chain@, %s) ==> same_answer(erased_rc(out), load_erased(%s, %s, tag::<T>(), answer_chain(old(self).storage, %s, tag::<T>(), %s)))'
      % (KEY, DOC, KEY, KEY, PUSHED)),
     ('answers_as_uncached_now',
-     '!old(self).chain@.contains(%s) && guard_hypothesis(%s, %s, tag::<T>()) ==> same_answer(erased_rc(out), load_erased(%s, %s, tag::<T>(), %s))'
+     '!guard_refuses(old(self).chain@, %s) && guard_hypothesis(%s, %s, tag::<T>()) ==> same_answer(erased_rc(out), load_erased(%s, %s, tag::<T>(), %s))'
      % (KEY, DOC, KEY, DOC, KEY, PUSHED)),
 ]
 
